@@ -77,9 +77,9 @@ DeriveCommaQ == \E i \in DOMAIN Sr.query : Len(Sr.query[i][2]) > 1 /\
 DeriveAlias == Len(Sr.segs[N]) = 1 /\ IsAlias(Sr.segs[N][1]) /\
                  LET m == SetToSeq(AliasOf(Sr.segs[N][1])) IN
                  Alg("union", [a \in DOMAIN m |-> [Sr EXCEPT !.segs[N] = <<m[a]>>]], <<"alias">>)
-DeriveAliasQ == \E i \in DOMAIN Sr.query : Sr.query[i][1] = LeafQueryKey /\ Len(Sr.query[i][2]) = 1 /\ IsAlias(Sr.query[i][2][1]) /\
+DeriveAliasQ == \E i \in DOMAIN Sr.query : IsLeafQueryKey(Sr.query[i][1]) /\ Len(Sr.query[i][2]) = 1 /\ IsAlias(Sr.query[i][2][1]) /\
                  LET m == SetToSeq(AliasOf(Sr.query[i][2][1])) IN
-                 Alg("union", [a \in DOMAIN m |-> [Sr EXCEPT !.query[i] = <<LeafQueryKey, <<m[a]>> >>]], <<"aliasq">>)
+                 Alg("union", [a \in DOMAIN m |-> [Sr EXCEPT !.query[i] = <<Sr.query[i][1], <<m[a]>> >>]], <<"aliasq">>)
 \* (filters that would ADD a level are overlays, not filters: C04 owns them)
 DeriveStarStar == call.span = 1 /\ (\A q \in DOMAIN Sr.query : Sr.query[q][1] \in TKeys(call.t)) /\ \E p \in 2..N : Sr.segs[p] = <<"**">> /\
                  Alg("starstar", [n \in 1..(MaxTplLen + 2 - N) |->
